@@ -1,12 +1,22 @@
 #!/bin/sh
 # tools/run_seed.sh <SEED-ID> <Cxx>...: apply a kept seeded change to /repo, run
-# the given checks, undo it straight afterwards. Prints each check's verdict.
-S=/verif/seeded/$1; shift
+# the given checks (quick tier), undo it straight afterwards. Prints each check's
+# verdict and records it in seeded/<SEED-ID>/detection.log.
+S=/verif/seeded/$1; ID=$1; shift
 git -C /repo diff --quiet || { echo "/repo is dirty"; exit 2; }
 git -C /repo apply "$S/patch.diff" || exit 2
 for c in "$@"; do
-  out=$(cd /verif && ./check "$c" --tier quick 2>&1); rc=$?
-  echo "== $c rc=$rc"; echo "$out" | grep -E "^VIOLATION|^KNOWN-FINDING|OBLIGATION BROKEN" | cut -c1-220 | head -8
+  (cd /verif && ./check "$c" --tier quick > /tmp/run_seed.$$ 2>&1); rc=$?
+  first=$(grep -E "^VIOLATION" /tmp/run_seed.$$ | head -1)
+  nv=$(grep -c "^VIOLATION" /tmp/run_seed.$$)
+  nb=$(grep -c "OBLIGATION BROKEN" /tmp/run_seed.$$)
+  key=""
+  r=$(echo "$first" | sed -n 's/.*replay=\([^ ]*\).*/\1/p')
+  [ -n "$r" ] && [ -f "$r" ] && key=$(python3 -c "import json,sys; d=json.load(open('$r')); print((d.get('kind','')+' | '+str(d.get('key',''))+' | '+str(d.get('what',''))+' | '+str(d.get('broken_obligations',''))[:160])[:400])")
+  line="$ID $c rc=$rc violations=$nv broken_obligations=$nb :: $first :: $key"
+  echo "$line"
+  grep -v "^$ID $c " "$S/detection.log" 2>/dev/null > /tmp/run_seed.d.$$; mv /tmp/run_seed.d.$$ "$S/detection.log"; echo "$line" >> "$S/detection.log"
+  rm -f /tmp/run_seed.$$
 done
 git -C /repo checkout -- .
 git -C /repo status --short | head -3
